@@ -1,7 +1,7 @@
 (* C12 -- satisfiability examples: the hypotheses of the theorems are met by non-trivial concrete vectors *)
 From Coq Require Import String Ascii.
 From Coq Require Import NArith ZArith Bool List.
-From CppUVerif Require Import gen.Gen_C12 lib.Str C12_Model C12_Proofs C12_Meaning C12_Select.
+From CppUVerif Require Import gen.Gen_C12 lib.Str C13_Model C12_Model C12_Proofs C12_Meaning C12_Select C12_Checked C12_Safe.
 Import ListNotations.
 Local Open Scope N_scope.
 
@@ -29,4 +29,10 @@ Example ex_selected_lists : selected (add_nf (add_gf default_config (mkf (B "gr"
 Proof. vm_compute. reflexivity. Qed.
 Example ex_spec_judges : spells [B "prog"; B "-xt"; B "grp.name"] [DGroupDotName FExclude (B "grp") (B "name")] = true /\
   valid 5 [B "prog"; B "-xt"; B "grp.name"] = true.
+Proof. split; vm_compute; reflexivity. Qed.
+Example ex_memory_safe : valid 5 [B "prog"; B "TEST("; B "-xt"; B "a..b"; B "-r"] = true /\
+  parse_m 5 [B "prog"; B "TEST(grp"; B "-st"; B ".x"; B "-s"; B "4294967297"; B "-r-7"] = Ok (parse 5 [B "prog"; B "TEST(grp"; B "-st"; B ".x"; B "-s"; B "4294967297"; B "-r-7"]) /\
+  exists c, parse 5 [B "prog"; B "TEST(grp"; B "-st"; B ".x"; B "-s"; B "4294967297"; B "-r-7"] = Accept c /\ c_seed c = 1 /\ c_repeat c = 18446744073709551609.
+Proof. split; [vm_compute; reflexivity|]. split; [vm_compute; reflexivity|]. vm_compute. eexists. repeat split. Qed.
+Example ex_memory_old : parse_m_old 5 [B "prog"; B "TEST(grp"] = Oob /\ valid 5 [B "prog"; B "TEST(grp"] = true.
 Proof. split; vm_compute; reflexivity. Qed.
